@@ -312,6 +312,7 @@ type c19w struct {
 	minEverD     time.Time // earliest non-zero read deadline ever requested
 	minDSince    time.Time // earliest non-zero read deadline requested since the queue was last known clean
 	floodFlag    bool
+	floodAt      []time.Duration // instants at which a requested read deadline expires (time-out records start to pour in)
 	recovering   bool
 
 	tasks    int
@@ -590,7 +591,53 @@ func (w *c19w) doInject(which int, size int, sentinel bool) *injRec {
 	if r.accepted && which >= 2 {
 		w.censusNow("packet accepted by a socket older than the previous one")
 	}
+	if r.accepted && which <= 1 && !r.lossy && !r.rerr && !w.closing && len(w.pending) > 0 {
+		// a reader is already waiting: the packet (or an earlier one) must reach it promptly
+		w.after(w.margin, func() { w.checkPrompt(r) })
+	}
 	return r
+}
+
+// atRisk: time-out records started to pour into the receive queue before the receive loop can be
+// assumed to have moved this packet from its socket into the queue; it may then be dropped as
+// "queue full" (the packet is safe once it is in the queue).
+func (w *c19w) atRisk(r *injRec) bool {
+	if r.lossy {
+		return true
+	}
+	for _, f := range w.floodAt {
+		if f >= r.at && f <= r.at+w.margin {
+			return true
+		}
+	}
+	return false
+}
+
+// checkPrompt: a packet that arrived on the current or the previous socket while a ReadFrom was
+// already blocked is still undelivered one stall budget later, and that ReadFrom is still blocked.
+func (w *c19w) checkPrompt(r *injRec) {
+	if r.delivered || w.closing || w.lossyNow() || r.sock.rerr || w.atRisk(r) {
+		return
+	}
+	if r.sock.closedAt >= 0 && r.sock.closedAt-r.at <= w.margin {
+		return // retired before the receive loop had to have picked it up
+	}
+	var ids []int
+	for id, rec := range w.pending {
+		if rec.invokedAt <= r.at {
+			ids = append(ids, id)
+		}
+	}
+	if len(ids) == 0 {
+		return
+	}
+	sort.Ints(ids)
+	which := "current"
+	if r.rank == 1 {
+		which = "previous"
+	}
+	w.x.Violate("packet-not-delivered", "packet id=%d arrived at %v on sock%d (the %s socket at that time; closed at %v, -1 = open) while read#%d was already blocked in ReadFrom; at %v neither has the packet been delivered nor has that read returned (%d hops done)",
+		r.id, r.at, r.sock.idx, which, r.sock.closedAt, ids[0], w.now(), w.hopsOK)
 }
 
 func isTimeout(err error) bool {
@@ -600,14 +647,19 @@ func isTimeout(err error) bool {
 
 // doRead performs one ReadFrom and judges the result. It returns false when the caller should
 // stop reading (closed / unexpected).
-func (w *c19w) doRead(recov bool) (more bool, sentinel bool) {
+func (w *c19w) doRead(recov bool, buf []byte) (more bool, sentinel bool) {
 	x := w.x
 	w.nextRead++
 	rec := &readRec{id: w.nextRead, invokedAt: w.now(), pending: true, afterClose: w.closeReturned, mayQueued: w.closeQueued, recov: recov}
 	w.pending[rec.id] = rec
-	x.Ev("read#%d invoke deadline=%s afterClose=%v", rec.id, w.fmtD(w.curD), rec.afterClose)
-	w.armReadWatch(rec)
-	buf := make([]byte, 2048)
+	if !recov {
+		// (the recovery reader drains up to a thousand stale time-out records: counted, not logged)
+		x.Ev("read#%d invoke deadline=%s afterClose=%v", rec.id, w.fmtD(w.curD), rec.afterClose)
+		w.armReadWatch(rec)
+	}
+	if buf == nil {
+		buf = make([]byte, 2048)
+	}
 	n, _, err := w.pc.ReadFrom(buf)
 	rec.pending = false
 	delete(w.pending, rec.id)
@@ -643,7 +695,9 @@ func (w *c19w) doRead(recov bool) (more bool, sentinel bool) {
 		}
 		return true, sentinel
 	case isTimeout(err):
-		x.Ev("read#%d -> timeout", rec.id)
+		if !recov {
+			x.Ev("read#%d -> timeout", rec.id)
+		}
 		w.timeouts++
 		if w.minEverD.IsZero() || w.minEverD.After(time.Now()) {
 			x.Violate("spurious-timeout", "ReadFrom returned a timeout at %v but no read deadline requested so far has passed (earliest %s)", w.now(), w.fmtD(w.minEverD))
@@ -715,6 +769,11 @@ func (w *c19w) doSetDeadline(kind string, t time.Time) {
 		g0 = w.gen
 		w.curD = t
 		if !t.IsZero() {
+			f := w.now() + time.Until(t)
+			if f < w.now() {
+				f = w.now()
+			}
+			w.floodAt = append(w.floodAt, f)
 			if w.minEverD.IsZero() || t.Before(w.minEverD) {
 				w.minEverD = t
 			}
@@ -787,13 +846,15 @@ func (w *c19w) doRecover() bool {
 	for i := 0; w.inflightSets > 0 && i < 100000; i++ {
 		time.Sleep(time.Millisecond)
 	}
-	x.Ev("recover: begin")
+	wasLossy := w.lossyNow()
+	x.Ev("recover: begin (queue possibly saturated: %v)", wasLossy)
 	w.doSetDeadline("srd", time.Time{})
 	count, done, pend, abort := 0, false, false, false
 	w.spawn("recover-reader", func() {
+		buf := make([]byte, 2048)
 		for count < 6000 {
 			pend = true
-			more, sentinel := w.doRead(true)
+			more, sentinel := w.doRead(true, buf)
 			pend = false
 			count++
 			if !more || sentinel {
@@ -809,7 +870,7 @@ func (w *c19w) doRecover() bool {
 		abort, done = true, true
 	})
 	idle := time.Second + 2*w.margin
-	for round := 0; round < 12 && !done; round++ {
+	for round := 0; round < 6 && !done; round++ {
 		c0 := count
 		time.Sleep(idle)
 		if done {
@@ -828,7 +889,7 @@ func (w *c19w) doRecover() bool {
 			}
 		}
 	}
-	for i := 0; !done && i < 20 && !w.closing; i++ {
+	for i := 0; !done && i < 3 && !w.closing; i++ {
 		time.Sleep(idle)
 	}
 	ok := done && !abort && !w.closing
@@ -836,11 +897,10 @@ func (w *c19w) doRecover() bool {
 	if ok {
 		w.floodFlag = false
 		w.minDSince = w.curD
-		x.Probe("queue-recovered-after-expired-deadline")
+		if wasLossy {
+			x.Probe("queue-recovered-after-expired-deadline")
+		}
 		return true
-	}
-	if !w.closing {
-		x.Inconclusive("recovery of the receive queue did not converge")
 	}
 	return false
 }
@@ -850,8 +910,8 @@ func (w *c19w) doClose() {
 	if !w.cand && !w.closing {
 		// main part: never call Close while time-out records may saturate the queue (c19cand does)
 		for i := 0; i < 3; i++ {
-			for j := 0; (w.inflightSets > 0 || w.recovering) && j < 100000; j++ {
-				time.Sleep(time.Millisecond)
+			for j := 0; (w.inflightSets > 0 || w.recovering) && j < 10000; j++ {
+				time.Sleep(20 * time.Millisecond)
 			}
 			if !w.lossyNow() {
 				break
@@ -986,7 +1046,7 @@ func execC19(x *hysim.Run) {
 			n := int(clamp(op.Arg(0), 1, 8))
 			w.spawn("read", func() {
 				for i := 0; i < n; i++ {
-					if more, _ := w.doRead(false); !more {
+					if more, _ := w.doRead(false, nil); !more {
 						return
 					}
 					if w.timeouts > 0 && i+1 < n {
@@ -1085,6 +1145,8 @@ func execC19(x *hysim.Run) {
 		}
 		if w.doRecover() {
 			w.checkDelivered()
+		} else {
+			x.Inconclusive("final drain of the receive queue did not converge")
 		}
 		for i := 0; w.inListen > 0 && i < 100000; i++ {
 			time.Sleep(time.Millisecond)
@@ -1099,7 +1161,7 @@ func execC19(x *hysim.Run) {
 	w.doWrite(32, 1)
 	w.spawn("post-close-read", func() {
 		for i := 0; i < 2; i++ {
-			if more, _ := w.doRead(false); !more {
+			if more, _ := w.doRead(false, nil); !more {
 				return
 			}
 		}
@@ -1169,7 +1231,7 @@ func (w *c19w) checkDelivered() {
 		if r.sentinel || !r.accepted || r.rank > 1 || r.delivered {
 			continue
 		}
-		if r.lossy {
+		if w.atRisk(r) {
 			x.Probe("packet-dropped-while-queue-saturated")
 			continue
 		}
@@ -1637,7 +1699,7 @@ func genC19(r *hysim.Rand, tier string, cand bool) *hysim.Script {
 		sc.Cfg["cand_kind"] = int64(candKind)
 	}
 	// profile
-	profile := r.Intn(3) // 0 traffic, 1 deadlines, 2 mixed
+	profile := r.Pick(0, 0, 0, 0, 1, 1, 1, 2, 2) // 0 traffic, 1 deadlines, 2 mixed
 	if cand {
 		profile = 0
 	}
